@@ -24,7 +24,7 @@ FORMATS = {
 _ROW = re.compile(r"^(.*?)[│|] *(\d*) *[│|](.*)$")
 
 
-def make_input(ks, renamed, AUTHORS=AUTHORS):
+def make_input(ks, renamed, AUTHORS=AUTHORS, gs=None):
     lines, meta = [], []
     for i, k in enumerate(ks):
         code = CODES[(i * 7 + k) % len(CODES)]
@@ -33,6 +33,8 @@ def make_input(ks, renamed, AUTHORS=AUTHORS):
         author = AUTHORS[k].ljust(16)
         lines.append(f"{COMMITS[k]}{fname} ({author} {TIMES[k]} {num:>4}) {code}" if code else
                      f"{COMMITS[k]}{fname} ({author} {TIMES[k]} {num:>4})")
+        if gs and gs[i]:
+            lines[-1] = "\x1b[1;34m" + lines[-1] + "\x1b[m"        # git colours the whole line (blame.coloring)
         meta.append((num, (" " + code if code else "").replace("\t", " " * 8)))   # tabs are expanded
     return ("\n".join(lines) + "\n").encode(), meta
 
@@ -49,6 +51,16 @@ def run(tier):
     if not reg.violated:
         raise core.ToolError("MC_Blame_regression was not rejected: design-level check is vacuous")
     cases = [v for t, v in mc.printed if t == "REPLAY"]
+    # streams in which git coloured some lines itself: totality of the colour assignment and the neighbour laws
+    mg = tlc.run_tlc("MC_Blame", cfg="MC_Blame_git", workers=4, coverage=False, timeout=1800, heap="6g")
+    tlc.require_ok(mg, "MC_Blame_git")
+    if mg.violated:
+        V.drift.append(f"module=Blame design-level {mg.violated} violated with git-coloured lines")
+    regg = tlc.run_tlc("MC_Blame", cfg="MC_Blame_git_regression", workers=2, coverage=False, timeout=600)
+    if regg.violated != "GTotal":
+        raise core.ToolError("MC_Blame_git_regression (the two 'impossible' arms of get_color) did not violate GTotal")
+    gcases = [v for t, v in mg.printed if t == "REPLAYG"]
+    cases += rnd.sample(gcases, min(len(gcases), 600 if tier == "quick" else len(gcases)))
     # deeper seeded sequences (longer than the exhaustive bound)
     for i in range(300 if tier == "quick" else 3000):
         r2 = random.Random(core.seed() * 31337 + i)
@@ -67,7 +79,7 @@ def run(tier):
 
     def one(job):
         c, fmt, renamed = job
-        data, meta = make_input(c["ks"], renamed, authors_of(job))
+        data, meta = make_input(c["ks"], renamed, authors_of(job), c.get("gs"))
         args = ["--no-gitconfig", "--syntax-theme", "none", "--blame-palette", " ".join(PALETTE[:c["P"]]),
                 "--blame-timestamp-output-format", "%Y-%m-%d %H:%M:%S %z", "--width", "200"] + FORMATS[fmt]
         return data, meta, core.run_delta(args, data)
@@ -90,7 +102,7 @@ def run(tier):
             rows.append({"c": pal_index.get(tuple(bg), 0), "code": intern(code.encode()), "num": int(num) if num else 0,
                          "commit": commit, "author": which(authors_of((c, fmt, renamed))) if shows_all else commit,
                          "time": which(TIMES) if shows_all else commit})
-        events.append({"run": i, "NK": 4, "P": c["P"], "ks": c["ks"],
+        events.append({"run": i, "NK": 4, "P": c["P"], "ks": c["ks"], "gs": [bool(x) for x in (c.get("gs") or [False] * len(c["ks"]))],
                        "lines": [{"num": n, "code": intern(code.encode())} for n, code in meta],
                        "rows": rows, "code": 999 if r.timed_out else r.code})
     n = max(1, min(4, len(events) // 1500 + 1))
